@@ -157,7 +157,6 @@ class DSum(object):
         sets the current context.
         """
         data, context = lena.flow.get_data_context(value)
-        self._cur_context = context
         # based on https://code.activestate.com/recipes/393090/
         # mant, exp = frexp(data)
         # mant, exp = int(mant * 2.0 ** 53), exp-53
@@ -170,6 +169,9 @@ class DSum(object):
                 break
             except Inexact:
                 self._dcontext.prec += 1
+        # set only after the addition succeeded: a value that could not
+        # be added was not filled and must not change the context
+        self._cur_context = context
 
     def compute(self):
         """Yield the calculated sum as *float*.
